@@ -439,19 +439,45 @@ func keepaliveScenarios(tier string) []weighted {
 		for _, m := range ekit.Modes {
 			for _, e := range []string{"go"} {
 				for _, gl := range glists {
-					if m != ekit.LT && len(gl) >= 2 && !thorough {
-						continue // the epoll mode only matters for how the request is read
-					}
-					p := 0
-					if len(gl) <= 1 {
-						p = 1
-					}
-					if thorough {
-						p++
-					}
-					d := 1
-					if thorough {
-						d = 2
+					// bounds: the WebSocket stack has about three times as many blocking points per
+					// exchange as the HTTP one; the longest lists run with free choices only (every
+					// order at blocking points, ties, and the offered mid-exchange firings)
+					var p, d int
+					switch {
+					case !thorough && !ws:
+						switch {
+						case len(gl) <= 1:
+							p, d = 1, 1
+						case m == ekit.LT:
+							p, d = 0, 1
+						default:
+							continue // the epoll mode only matters for how the request is read
+						}
+					case !thorough && ws:
+						if len(gl) > 1 {
+							continue
+						}
+						p, d = 0, 1
+					case thorough && !ws:
+						switch {
+						case len(gl) <= 1:
+							p, d = 2, 2
+						case len(gl) == 2:
+							p, d = 1, 1
+						case m == ekit.LT:
+							p, d = 0, 1
+						default:
+							continue
+						}
+					default:
+						switch {
+						case len(gl) <= 1:
+							p, d = 1, 2
+						case len(gl) == 2 && m == ekit.LT:
+							p, d = 0, 1
+						default:
+							continue
+						}
 					}
 					if v := os.Getenv("VERIF_C16_P"); v != "" {
 						p, _ = strconv.Atoi(v)
